@@ -236,7 +236,24 @@ fn cmd_digest(args: &[String]) -> i32 {
         max_samples: 0,
     };
     let (p2, g2) = (prop.clone(), guards.clone());
-    let b = run_batch(&cfg, move |run_seed, _| props::run(&p2, run_seed, &g2));
+    // VERIF_DUMP_DIGESTS=<file>: one line per run (run seed, event-log digest), to diff two processes
+    let dump: std::sync::Arc<std::sync::Mutex<Vec<(u64, u64)>>> = Default::default();
+    let d2 = dump.clone();
+    let b = run_batch(&cfg, move |run_seed, _| {
+        if std::env::var("VERIF_LOGDUMP_SEED").ok().map_or(false, |s| s.split(',').any(|x| x.parse::<u64>().ok() == Some(run_seed))) {
+            eprintln!("LOG ==== run {}", run_seed);
+            simcore::LOGDUMP_THREAD.with(|c| c.set(true));
+        }
+        let r = props::run(&p2, run_seed, &g2);
+        d2.lock().unwrap().push((run_seed, r.log_digest));
+        r
+    });
+    if let Ok(path) = std::env::var("VERIF_DUMP_DIGESTS") {
+        let mut v = dump.lock().unwrap().clone();
+        v.sort();
+        let text: String = v.iter().map(|(s, d)| format!("{} {:016x}\n", s, d)).collect();
+        let _ = std::fs::write(path, text);
+    }
     println!("{} {:016x} runs={} violations={}", prop, b.batch_digest, b.runs_done, b.violations_seen);
     0
 }
